@@ -209,7 +209,7 @@ fn free_port() -> u16 {
     std::net::TcpListener::bind("127.0.0.1:0").and_then(|l| l.local_addr()).map(|a| a.port()).unwrap_or(0)
 }
 
-fn case_scrape(bytes: &[u8], _s: &[u8], ctx: &mut Ctx) -> Result<(), Fail> {
+pub fn case_scrape(bytes: &[u8], _s: &[u8], ctx: &mut Ctx) -> Result<(), Fail> {
     let mut src = Source::new(bytes);
     let case = decode(&mut src);
     ctx.case(&case);
@@ -354,7 +354,7 @@ fn v6_net(text: &str) -> Option<(u128, u32)> {
     Some((u128::from(ip), len.unwrap_or(128)))
 }
 
-fn case_scrape_v6(bytes: &[u8], _s: &[u8], ctx: &mut Ctx) -> Result<(), Fail> {
+pub fn case_scrape_v6(bytes: &[u8], _s: &[u8], ctx: &mut Ctx) -> Result<(), Fail> {
     let mut src = Source::new(bytes);
     let entries: Vec<&'static str> = (0..src.below(5)).map(|_| *src.pick(&V6_ENTRIES)).collect();
     let paths: Vec<&'static str> = (0..1 + src.below(3)).map(|_| *src.pick(&["/metrics", "/health", "/"])).collect();
